@@ -102,9 +102,10 @@ PkgNames == {"pg", "token"}
 Excluded_F_C18_3 == {"constraintMethods"}   \* constraint interface that also has methods
 Excluded_F_C18_4 == {"ifaceBlankParam"}     \* interface method with a blank parameter name
 Excluded_F_C18_5 == {"ifaceParamW"}         \* interface method with a parameter named W
-ExcludedKinds == Excluded_F_C18_3 \cup Excluded_F_C18_4 \cup Excluded_F_C18_5
+\* all three were repaired (0b1bc87, fcc3f5f): nothing is left out of the random tier any more
+ExcludedKinds == {}
 \* F-C18-6: package named like an import of the generated file (pname = "token")
-SimPkgNames == {"pg"}
+SimPkgNames == {"pg", "token"}     \* F-C18-6 repaired (3773acb)
 \* F-C18-7: a package all of whose bound declarations are re-materialised literals (the
 \* generated file then imports the package without using it).  Such a set of kinds is
 \* completed with a function outside the pinned singletons.
@@ -113,7 +114,7 @@ LiteralKinds == {k \in DOMAIN Decls : \A d \in Decls[k] : d.em \in {"literal", "
 \* does not make the generated file use the package either
 NotEmitted_F_C18_8 == {"aliasGenericInst"}
 Excluded_F_C18_7(ks) == ks \subseteq (LiteralKinds \cup NotEmitted_F_C18_8)
-Fix(ks) == IF Excluded_F_C18_7(ks) THEN ks \cup {"funcPlain"} ELSE ks
+Fix(ks) == ks      \* F-C18-7 and F-C18-8 repaired (778cb68, 078e3e9): literal-only packages are generated as they are
 
 -------------------------------------------------------------------------------
 (* Pairwise-complete enumeration: the 56 lines of the affine plane of order 7   *)
